@@ -5,7 +5,7 @@ Tie T1: Model.Check.from_grammar (extracted) vs ValidGrammar::from_grammar on Ru
 Direct judgement: clean-by-construction grammars with at most one planted mistake of a known
 class; the verdict + diagnostic class of the library AND of the complgen binary are compared with
 the planted class, and with Spec.Mistakes.present (extracted) evaluated on Rust's parse tree."""
-from .. import build, impl, model, planted, report, sexp
+from .. import build, coqcheck, impl, model, planted, report, sexp
 from .c11 import norm_check
 
 SHELLS = planted.SHELLS
@@ -74,6 +74,12 @@ def run(ctx, res):
     with build.Lock():
         exe = build.harness()
         binary = build.complgen()
+        # the end-to-end theorems (the checker classes lifted to the source text through Driver.compile) live in Props/C08b.v
+        extra = coqcheck.check_property('C08b')
+    if not extra['ok']:
+        res.violations.append(report.Violation('proof obligations of C08b no longer check',
+                                               dict(kind='proof-obligation', errors=extra['errors'][:5]), found_input=False))
+    res.extra['theorems_C08b'] = extra['theorems']
     cs = cases(ctx)
     texts = [c['text'] for c in cs]
     dumps = impl.dump(exe, texts, ['parse', 'check', 'regex', 'raw', 'min', 'amb'], SHELLS)
